@@ -347,9 +347,11 @@ where
             outgoing_batch.push(next_msg);
           }
 
-          // Then, if there is still room, top up from the core_pipe_manager
+          // Then, if there is still room, top up from the core_pipe_manager - but only once the
+          // carry-over is fully drained: messages still in carry-over are OLDER than anything in
+          // the pipe, so topping up past them would put newer messages on the wire first.
           let start_len = outgoing_batch.len();
-          if start_len < max_count && total_bytes < logical_max_bytes {
+          if core_carryover.is_empty() && start_len < max_count && total_bytes < logical_max_bytes {
             // Dynamically calculate actual remaining slots based on the average size of current messages
             let avg_size = if start_len > 0 {
               total_bytes / start_len
